@@ -880,11 +880,16 @@ func handleMessage(peer *Peer, m protocol.Message) error {
 		if r || q {
 			length := len(m.Data)
 			DownloadEstimator.Accumulate(length)
-			n, complete, err := peer.Pieces.AddData(
-				m.Index, m.Begin, m.Data, peer.Counter)
+			var n uint32
+			var complete bool
+			var err error
+			if uint32(length) == chunkSize(peer, c) {
+				n, complete, err = peer.Pieces.AddData(
+					m.Index, m.Begin, m.Data, peer.Counter)
+			}
 			protocol.PutBuffer(m.Data)
 			m.Data = nil
-			if n == uint32(length) {
+			if n == uint32(length) && n == chunkSize(peer, c) {
 				peer.download.Accumulate(length)
 				peer.avgDownload.Accumulate(length)
 				writeEvent(peer, TorData{peer,
